@@ -1,5 +1,35 @@
-(* STUB: Spec layer for spcr -- to be written *)
-From Coq Require Import NArith List.
-From ACPI Require Import Lib.Bytes Lib.Sx Spec.Layout.
+(* Spec layer for the SPCR revision 4 (Microsoft Serial Port Console Redirection Table), written from SPEC_NOTES.md A.1:
+   36+52 fixed fields, then the namespace string; the SBI console has no register block, interrupt or PCI device.
+   Case vocabulary (shared with the harness, component 28):
+     ctor  (oem6 tbl8 orev)          SPCR::sbi(oem_id, oem_table_id, oem_revision)
+     ops   none (observations only) *)
+From Coq Require Import NArith List Bool.
+From ACPI Require Import Lib.Bytes Lib.Sx Spec.Layout Spec.FixedS.
 Import ListNotations.
-Definition spcr_spec : tspec := null_spec.
+Open Scope N_scope.
+
+Definition spcr_sbi_body : option (list N) :=
+  lay_at 36 54
+    [L 36 1 0x15;                                     (* InterfaceType: RISC-V SBI console *)
+     L 37 3 0;
+     L 40 1 0; L 41 1 0; L 42 1 0; L 43 1 0; L 44 8 0; (* BaseAddress (GAS): none *)
+     L 52 1 0; L 53 1 0; L 54 4 0;                     (* InterruptType, IRQ, GSI *)
+     L 58 1 0; L 59 1 0; L 60 1 0; L 61 1 0; L 62 1 0; L 63 1 0;   (* BaudRate Parity StopBits FlowControl TerminalType Language *)
+     L 64 2 0xFFFF; L 66 2 0xFFFF;                     (* PCI DeviceID / VendorID: not a PCI device *)
+     L 68 1 0; L 69 1 0; L 70 1 0; L 71 4 0; L 75 1 0; (* Bus Device Function PCIFlags Segment *)
+     L 76 4 0; L 80 4 0;                               (* UartClockFrequency, PreciseBaudRate *)
+     L 84 2 2;                                         (* NamespaceStringLength *)
+     L 86 2 88;                                        (* NamespaceStringOffset, from the start of the table *)
+     L 88 1 46; L 89 1 0].                             (* ".\0" *)
+
+Definition spcr_ref (ctor : sx) : option (list N) :=
+  match ctor with
+  | SL [o; t; r] =>
+      match sx_hdr_args o t r, spcr_sbi_body with
+      | Some h, Some body => Some (ref_table [83; 80; 67; 82] 4 h body)       (* "SPCR", revision 4 *)
+      | _, _ => None
+      end
+  | _ => None
+  end.
+
+Definition spcr_spec : tspec := fixed_spec (ctor_only spcr_ref).
